@@ -77,7 +77,8 @@ def gen_wellformed(kind: str) -> t.Iterator[t.Tuple[t.Any, t.Callable[[], t.Any]
         for nctx in range(0, 9):
             for ntr in range(0, 5):
                 for tl in TRAILERS:
-                    ctxs = [(100 * i + 1, SYNS[i % 4], tuple(SYNS[(i + j) % 4] for j in range(ntr))) for i in range(nctx)]
+                    # transfer syntaxes of one context share a UUID and differ in the (minor) version; abstract syntaxes reuse UUIDs with other versions
+                    ctxs = [(100 * i + 1, (SYNS[i % 4][0], 1 + i // 4, i), tuple((SYNS[(i + j) % 4][0] if j % 2 else SYNS[i % 4][0], 1 + j // 2, j) for j in range(ntr))) for i in range(nctx)]
                     tr_obj, tr_ref = trailer_pair(R, tl)
                     ref = rpc.enc_bind_like(pt, 3, 7, ctxs, tr_ref, 4280, 5840, 0xA1B2C3)
 
@@ -154,7 +155,9 @@ def gen_wellformed(kind: str) -> t.Iterator[t.Tuple[t.Any, t.Callable[[], t.Any]
             if code == "b":
                 return R.CommandBitmask(flags=R.CommandFlags(fl), bits=1), (1, fl, struct.pack("<I", 1))
             if code == "p":
-                return R.CommandPContext(flags=R.CommandFlags(fl), interface_id=syn(R, rpc.ISD_KEY), transfer_syntax=syn(R, rpc.NDR64)), (2, fl, rpc.syntax_bytes(rpc.ISD_KEY) + rpc.syntax_bytes(rpc.NDR64))
+                iface = (rpc.ISD_KEY[0], 1, fl >> 15)  # same UUID, minor version varies with the command flags
+                trans = (rpc.NDR64[0], 1, 1 - (fl >> 15))
+                return R.CommandPContext(flags=R.CommandFlags(fl), interface_id=syn(R, iface), transfer_syntax=syn(R, trans)), (2, fl, rpc.syntax_bytes(iface) + rpc.syntax_bytes(trans))
             if code == "h":
                 v = struct.pack("<B3x4sIHH", 0, rpc.DREP, 9, 1, 0)
                 return R.CommandHeader2(flags=R.CommandFlags(fl), packet_type=R.PacketType(0), data_rep=R.DataRep(), call_id=9, context_id=1, opnum=0), (3, fl, v)
